@@ -6,6 +6,7 @@ package main
 
 import (
 	"fmt"
+	"os"
 	"strings"
 
 	"github.com/youchainhq/go-youchain/core/rawdb"
@@ -154,6 +155,7 @@ func runCase(k *kase, m *modelIO) (fails []failure, st stats) {
 		if pn := k.nodes[k.nodes[ids[0]].parent]; pn != nil && k.chainValid(k.nodes[ids[len(ids)-1]]) {
 			parentNoState = rawdb.HasBody(c.under, pn.blk.Hash(), pn.num) && !c.bc.HasState(pn.blk.Root())
 		}
+		sub(ci, -1, "import")
 		res, prims := c.insert(ids)
 		if parentNoState && res == "err" {
 			st.refusedNoParentState++
@@ -233,6 +235,7 @@ func runCase(k *kase, m *modelIO) (fails []failure, st stats) {
 		}
 		for kx := 0; kx <= len(prims); kx++ {
 			st.prefixes++
+			sub(ci, kx, "restart")
 			r, _, err := k.open(s0.materialise(prims[:kx]))
 			if err != nil {
 				addFail(failure{kind: "oracle", what: "restart: NewBlockChain on the crashed database fails: " + err.Error(), call: ci, k: kx})
@@ -247,6 +250,7 @@ func runCase(k *kase, m *modelIO) (fails []failure, st stats) {
 				cons = "0"
 				addFail(failure{kind: "oracle", what: b, call: ci, k: kx})
 			}
+			sub(ci, kx, "reimport")
 			res1, _ := r.insert(ids)
 			if strings.HasPrefix(res1, "panic") {
 				addFail(failure{kind: "crash", what: "panic: re-import after restart panicked: " + res1, call: ci, k: kx})
@@ -259,7 +263,14 @@ func runCase(k *kase, m *modelIO) (fails []failure, st stats) {
 			if h1 == u1 {
 				st.rejoinExact++
 			}
+			if cautious && h1 != u1 {
+				// a further-block import killed the process earlier in this run: report the node that did not rejoin as it is
+				addFail(failure{kind: "oracle", what: fmt.Sprintf("wedged: after restart and re-import of the interrupted blocks the head is %s, a node that never crashed has %s (the further valid block is not offered: that import killed the process earlier in this run)", h1, u1), call: ci, k: kx})
+				r.close()
+				continue
+			}
 			if hasChild {
+				sub(ci, kx, "further")
 				res2, _ := r.insert([]int{child})
 				if strings.HasPrefix(res2, "panic") {
 					addFail(failure{kind: "crash", what: "panic: import of the further block after restart panicked: " + res2, call: ci, k: kx})
@@ -487,6 +498,14 @@ func run(c *vh.Ctx) error {
 	}
 	nfail := map[string]int{}
 	doCase := func(name string, lines []string) {
+		if !enter(name, lines) {
+			return
+		}
+		defer func() {
+			if c.Out != "" && os.Getenv("C11_CHILD") == "1" {
+				res.Write(c.Out) // the parent merges this if the process dies later
+			}
+		}()
 		k, err := buildCase(lines)
 		if err != nil {
 			res.Dist("case-unbuildable")
@@ -524,6 +543,9 @@ func run(c *vh.Ctx) error {
 		if e != nil {
 			continue
 		}
+		if !enter("corpus", body) {
+			continue
+		}
 		k, err := buildCase(body)
 		if err != nil {
 			res.Fail("corpus", "", "corpus file does not build: "+fpath+": "+err.Error(), fpath)
@@ -535,7 +557,9 @@ func run(c *vh.Ctx) error {
 			res.Fail("corpus", matcherFor(k, f), "corpus witness fails again: "+fpath+": "+f.String(), fpath)
 		}
 	}
-	runProbe(c, m)
+	if enter("probe", ghostProbe) {
+		runProbe(c, m)
+	}
 	// exhaustive small family
 	for _, mode := range []string{"solo", "strict"} {
 		fam := smallFamily(mode)
